@@ -82,6 +82,29 @@ def run(ctx, rep, tier):
                 rep.violation("TT", _it[0].decl, _it[0], "isTurn(%s) = %s" % (_n, bool(_got)), "a cell in orientation %s %s a quarter turn: placedWidth / placedHeight, and with "
                               "them the footprint subtracted from the rows for a fixed obstruction, exchange width and height exactly then" % (_n, "is" if _want else "is not"),
                               key="isTurn|%s" % _n)
+    # placed footprint of an obstruction: placedWidth / placedHeight exchange the sizes exactly for the quarter turns
+    # (the same exhaustive evaluation as C09-T3, restricted to the two functions computeRows depends on)
+    from .c09 import make_evaluator
+    from ..tables import Lin
+    for _fn, _straight, _turned in (("placedWidth", "w", "h"), ("placedHeight", "h", "w")):
+        _fs = ctx.prog.func(CQ + "Circuit::" + _fn, required=False) or []
+        if len(_fs) != 1:
+            rep.unknown("TT", None, None, _fn, "not found (shape changed)")
+            continue
+        for _n, _v in dict(_ev.enumerators(CQ + "CellOrientation")).items():
+            if _n in ("INVALID", "UNKNOWN"):
+                continue
+            _want = Lin.sym(_turned if _n in ("E", "W", "FE", "FW") else _straight)
+            try:
+                _got = make_evaluator(ctx, _v).call(_fs[0], [Lin.sym("cell")])
+            except (OutsideFragment, Abort) as _e:
+                rep.unknown("TT", _fs[0].decl, _fs[0], "%s for orientation %s" % (_fn, _n), "outside the evaluable fragment: %s" % _e)
+                continue
+            if _got == _want:
+                rep.holds("TT", _fs[0].decl, _fs[0], "%s(%s) = %s" % (_fn, _n, _got))
+            else:
+                rep.violation("TT", _fs[0].decl, _fs[0], "%s(%s) = %s" % (_fn, _n, _got), "the footprint of a fixed obstruction in orientation %s is %s wide/high there: "
+                              "computeRows subtracts placement(i), built from this value" % (_n, _want), key="%s|%s" % (_fn, _n))
     check_g12(ctx, rep)
     check_g13(ctx, rep)
     fr = [f for q in SCOPE_FRAME for f in prog.func(CQ + q, required=False)]
